@@ -146,6 +146,20 @@ def run_unit(unit, tier, canary=False):
             info['reason'] = 'verus front end: ' + '; '.join('%s (asm line %s -> %s)' % (h[0], h[1], u.origin(h[1])) for h in r.hard_errors[:3])
             return info
         attribute(u, r)
+        # frame conditions (syntactic): each hit is a failed obligation `frame@<type>`
+        for fr in u.frames:
+            for h in fr['hits']:
+                f = verus.Failure()
+                f.kind = 'frame'
+                f.kind2 = 'frame'
+                f.message = 'frame condition violated: %s outside the allowed constructor(s) [%s]' % (h['what'], fr['allow'])
+                f.rendered = '%s:%d: %s' % (h['file'], h['line'], h['text'])
+                f.props = fr['props'] or u.props
+                f.name = '%s::frame@%s::%s' % (u.name, fr['type'], h['what'])
+                f.where = ['repo', h['file'], h['line']]
+                f.func = None
+                f.frame = True
+                r.frame_failures = getattr(r, 'frame_failures', []) + [f]
         # retry policy: a failure must be reproduced with a larger rlimit and under two other seeds
         if r.failures:
             confirmed = {f.name for f in r.failures if f.kind != 'rlimit'}
@@ -173,6 +187,7 @@ def run_unit(unit, tier, canary=False):
             if info.get('unstable') and not r.failures and info['status'] == 'ok':
                 info['status'] = 'undecided'
                 info['reason'] = 'failure not reproducible across seeds: ' + ', '.join(info['unstable'])
+        r.failures = list(r.failures) + getattr(r, 'frame_failures', [])
     finally:
         shutil.rmtree(wd, ignore_errors=True)
     info['wall_s'] = time.time() - t0
